@@ -27,14 +27,15 @@ from vk import tree as vtree
 LEVEL = 'exploration'
 RULE = ('operations parse(t, with_comments=f) over a pool of 36 valid, invalid and lexically nasty texts x {f}; goldens '
         'from fresh processes; (a) all ordered pairs (thorough: triples over 14 texts) in one process + random histories '
-        'of 200 calls; (b) 8-32 threads x many parses under switch intervals 5e-3, 1e-4, 1e-5, 1e-6 and under LINE yield '
+        'of 200 calls; the same through the quick-access object calmjs.parse.es5 (called, and its pretty_print / '
+        'minify_print as history) over a 14-item pool; (b) 8-32 threads x many parses under switch intervals 5e-3, 1e-4, 1e-5, 1e-6 and under LINE yield '
         'injection; a case = one history / one (phase, thread, operation); non-trivial = history length >= 2, or the '
         'operation overlapped another thread\'s operation; distinct by operation sequence.')
 ASSUMPTIONS = ['reuse of one Parser object is documented as stateful and is not part of the property',
                'thread schedules are explored by stress (switch interval sweep, yield injection), not enumerated; the '
                'evidence reports how many operation pairs really overlapped']
 BUDGET_S = {'quick': 75, 'thorough': 800}
-REQUIRED_HITS = ['golden_from_fresh_process', 'sequential_call', 'concurrent_call', 'overlapping_pairs',
+REQUIRED_HITS = ['golden_from_fresh_process', 'sequential_call', 'entry_point_call', 'concurrent_call', 'overlapping_pairs',
                  'yield_injected', 'shared_state_compared']
 FLOOR = {'quick': 2000, 'thorough': 20000}
 MAX_SHARDS = 16
@@ -54,14 +55,26 @@ POOL = [
 ]
 
 
-def fingerprint_result(text, flag):
-    """harness's own reflective fingerprint of the outcome of one parse"""
-    from calmjs.parse.parsers.es5 import parse
+def fingerprint_result(text, flag, entry=0):
+    """harness's own reflective fingerprint of the outcome of one parse.  entry 0: parsers.es5.parse;
+    entry 1: the quick-access object calmjs.parse.es5 called with the text (without the keyword at all when
+    the flag is off); entries 2 / 3: es5.pretty_print / es5.minify_print of the text - parses whose tree is
+    not returned: their outcome is not compared, they are history for the calls that follow"""
     try:
-        t = parse(text, with_comments=flag)
+        if entry == 0:
+            from calmjs.parse.parsers.es5 import parse
+            t = parse(text, with_comments=flag)
+        else:
+            from calmjs.parse import es5
+            if entry == 1:
+                t = es5(text, with_comments=True) if flag else es5(text)
+            else:
+                f = es5.pretty_print if entry == 2 else es5.minify_print
+                f(text, with_comments=True) if flag else f(text)
+                return 'printed'
         return 'tree:%016x' % h64(repr(vtree.fingerprint(t)))
     except Exception as e:
-        return 'exc:%s:%s' % (type(e).__name__, str(e))
+        return 'printed' if entry >= 2 else 'exc:%s:%s' % (type(e).__name__, str(e))
 
 
 GOLDEN_CODE = r'''
@@ -139,15 +152,24 @@ def shared_state():
 def check_history(gold, history, results):
     """oracle: every result of a history equals its fresh-process golden"""
     out = []
-    for k, ((i, f), r) in enumerate(zip(history, results)):
+    for k, (op, r) in enumerate(zip(history, results)):
+        i, f = op[0], op[1]
+        if len(op) > 2 and op[2] >= 2:
+            continue        # a print through the quick-access object: history only
         if r != gold[(i, f)]:
             prev = history[k - 1] if k else None
             out.append(('C15:result_depends_on_history',
                         'parse(POOL[%d], with_comments=%s) gave %s; in a fresh process: %s; previous call: %s' % (
                             i, f, r[:120], gold[(i, f)][:120],
-                            None if prev is None else 'POOL[%d] (%r), with_comments=%s' % (prev[0], POOL[prev[0]][:30], prev[1]))))
+                            None if prev is None else 'POOL[%d] (%r), with_comments=%s%s' % (
+                                prev[0], POOL[prev[0]][:30], prev[1],
+                                '' if len(prev) < 3 else ' via ' + ENTRIES[prev[2]]))))
             break
     return out
+
+
+ENTRIES = ['parsers.es5.parse', 'calmjs.parse.es5(text)', 'calmjs.parse.es5.pretty_print(text)',
+           'calmjs.parse.es5.minify_print(text)']
 
 
 def selfcheck(ctx):
@@ -278,6 +300,30 @@ def run(ctx):
             ctx.violation(mech, {'history': [list(x) for x in hist]}, detail)
     state_check('random histories')
 
+    # (a') the same through the other public entry points: every (entry, text, flag) followed by a parse
+    # through parse() or through the quick-access object, over the small pool; then mixed random histories
+    small_items = [(i, f) for i in (2, 3, 7, 8, 11, 15, 27) for f in (False, True)]
+    idx = 0
+    for first in itertools.product(small_items, (1, 2, 3)):
+        for second in itertools.product(small_items, (0, 1)):
+            idx += 1
+            if idx % ctx.nshards != ctx.shard:
+                continue
+            hist = [first[0] + (first[1],), second[0] + (second[1],)]
+            results = [fingerprint_result(POOL[i], f, e) for i, f, e in hist]
+            ctx.hit('entry_point_call', 2)
+            ctx.case(('entry',) + tuple(hist), True)
+            for mech, detail in check_history(gold, hist, results):
+                ctx.violation(mech + ':across_entry_points', {'history': [list(x) for x in hist]}, detail)
+    for _ in range(ctx.pick(2, 20)):
+        hist = [rng.choice(items) + (rng.choice((0, 0, 1, 1, 2, 3)),) for _ in range(120)]
+        results = [fingerprint_result(POOL[i], f, e) for i, f, e in hist]
+        ctx.hit('entry_point_call', len(hist))
+        ctx.case(('entry',) + tuple(hist), True)
+        for mech, detail in check_history(gold, hist, results):
+            ctx.violation(mech + ':across_entry_points', {'history': [list(x) for x in hist]}, detail)
+    state_check('entry-point histories')
+
     # (b) interleaving stressor: few keys, many threads
     small_pool = [(i, f) for i in (2, 3, 7, 8, 11, 27) for f in (False, True)]
     per = ctx.pick(6, 60)
@@ -297,8 +343,8 @@ def run(ctx):
 def replay(ctx, witness):
     gold = goldens(ctx)
     if 'history' in witness:
-        hist = [(i, bool(f)) for i, f in witness['history']]
-        results = [fingerprint_result(POOL[i], f) for i, f in hist]
+        hist = [(op[0], bool(op[1])) + tuple(op[2:3]) for op in witness['history']]
+        results = [fingerprint_result(POOL[op[0]], op[1], *op[2:3]) for op in hist]
         for mech, detail in check_history(gold, hist, results):
             ctx.violation(mech, witness, detail)
     else:
